@@ -39,6 +39,12 @@ U_BAD = [
     cdef("Good", fields=[fdef("x"), fdef("y"), fdef("t", kind="text")]),
 ]
 
+# U_BAD2: the unbuildable class is the most recently created one under its name
+U_BAD2 = [
+    cdef("T2", ns="urn:a", mname="T", fields=[fdef("x")]),
+    cdef("T", ns="urn:a", bad=True, fields=[fdef("x")]),
+]
+
 # U_INHERIT: inherited fields take the declaring class's Meta.namespace
 U_INHERIT = [
     cdef("Root", fields=[fdef("r"), fdef("any", kind="wildcard", ns="##targetNamespace ##local")]),
